@@ -638,7 +638,7 @@ class QubitCircuit:
                             gate.targets,
                             None,
                             gate.arg_value,
-                            gate.arg_label,
+                            arg_label=gate.arg_label,
                         )
                     )
                     qc_temp.gates.append(
@@ -666,7 +666,7 @@ class QubitCircuit:
                             gate.targets,
                             None,
                             gate.arg_value,
-                            gate.arg_label,
+                            arg_label=gate.arg_label,
                         )
                     )
                     qc_temp.gates.append(
@@ -694,7 +694,7 @@ class QubitCircuit:
                             gate.targets,
                             None,
                             gate.arg_value,
-                            gate.arg_label,
+                            arg_label=gate.arg_label,
                         )
                     )
                     qc_temp.gates.append(
